@@ -2,3 +2,4 @@ import ClvmProofs.Props.C21
 import ClvmProofs.Props.C12
 import ClvmProofs.Props.C13
 import ClvmProofs.Props.C14
+import ClvmProofs.Props.C22
